@@ -61,6 +61,32 @@ ROOTS = {
                lambda r: [r.choice([0.0, 0.0, 1e-12, 0.2]), r.uniform(0.0, 2)]),
 }
 
+
+
+def power_family(n):
+    def f(x, d):
+        return x ** n - d
+    return f
+
+
+def exp_family(a):
+    def f(x, d):
+        return anp.exp(a * x) - d
+    return f
+
+
+def vpow_family(k):
+    return lambda x, d: d[0] * x ** k - d[1]
+
+
+# closures produced by a factory share one code object: name -> (factory, nd, inverse(par, d), parameter values, d means)
+FACTORIES = {
+    'fpow': (power_family, 0, lambda n, d: (d[0] ** (1.0 / n), [d[0] ** (1.0 / n - 1) / n]), [2, 3, 5], lambda r: [r.uniform(0.5, 4)]),
+    'fexp': (exp_family, 0, lambda a, d: (math.log(d[0]) / a, [1 / (a * d[0])]), [0.5, 1.0, 2.0], lambda r: [r.uniform(0.5, 4)]),
+    'fvpow': (vpow_family, 2, lambda k, d: ((d[1] / d[0]) ** (1.0 / k), [-(d[1] / d[0]) ** (1.0 / k) / (k * d[0]), (d[1] / d[0]) ** (1.0 / k) / (k * d[1])]),
+              [2, 3, 4], lambda r: [r.uniform(0.5, 2), r.uniform(0.5, 3)]),
+}
+
 # name -> (func(p, x) with anp, antiderivative F(p, x) valid for complex p and x, integrand value f(p, x) plain, parameter means)
 INTS = {
     'poly': (lambda p, x: p[0] + p[1] * x + p[2] * x ** 2, lambda p, x: p[0] * x + p[1] * x ** 2 / 2 + p[2] * x ** 3 / 3,
@@ -78,7 +104,12 @@ def check_root(ctx, case):
     probs = []
     rng = __import__('random').Random(case['seed'])
     nprng = np.random.default_rng(case['seed'])
-    func, nd, inv, gen = ROOTS[case['family']]
+    if case['family'] in FACTORIES:
+        fac, nd, finv, _, gen = FACTORIES[case['family']]
+        func = fac(case['par'])
+        inv = lambda d: finv(case['par'], d)  # noqa: E731
+    else:
+        func, nd, inv, gen = ROOTS[case['family']]
     means = case['means']
     layout = make_layout(rng)
     ds = [make_obs(rng, nprng, layout, m, rel=case['rel'], kind=k, exact_mean=case['exact']) for m, k in zip(means, case['kinds'])]
@@ -91,6 +122,11 @@ def check_root(ctx, case):
     guess = xt * case['guess_factor'] + case['guess_shift']
     arg = ds[0] if nd == 0 else (ds if case['as_list'] else np.array(ds))
     try:
+        if case['family'] in FACTORIES:
+            # a sibling closure of the same factory is solved first, in the same process
+            sib = FACTORIES[case['family']][0](case['sibling'])
+            xs_, _ = FACTORIES[case['family']][2](case['sibling'], dvals)
+            pe.roots.find_root(arg, sib, guess=xs_)
         res = pe.roots.find_root(arg, func, guess=guess)
     except Exception as e:
         return [('violation', 'find-root-exception', '%s: %s' % (type(e).__name__, str(e)[:200]))]
@@ -122,6 +158,18 @@ def check_int(ctx, case):
         lim.append(make_obs(rng, nprng, layout, m, rel=0.02, kind=k, exact_mean=case['exact_limits']) if k else m)
     if case.get('share_limit') and isinstance(lim[0], pe.Obs):
         lim[1] = lim[0] + (case['limits'][1] - case['limits'][0])
+    # the same Obs object in several places: its contributions add up
+    alias = case.get('alias')
+    if alias == 'a_is_b' and isinstance(lim[0], pe.Obs):
+        lim[1] = lim[0]
+    elif alias == 'limit_is_param':
+        i = case['alias_idx']
+        if isinstance(p[i], pe.Obs):
+            lim[1] = p[i]
+    elif alias == 'param_twice' and len(p) >= 2:
+        i, j = case['alias_idx'], (case['alias_idx'] + 1) % len(p)
+        if isinstance(p[i], pe.Obs):
+            p[j] = p[i]
     kwargs = dict(case.get('kwargs') or {})
     try:
         out = pe.integrate.quad(func, p, lim[0], lim[1], **kwargs)
@@ -169,7 +217,16 @@ def check_case(ctx, case):
 def gen_case(ctx):
     rng = ctx.rng
     kinds = [None, 'mc', 'mc', 'cov', 'mixed']
-    if rng.random() < 0.5:
+    r0 = rng.random()
+    if r0 < 0.12:
+        fam = rng.choice(sorted(FACTORIES))
+        fac, nd, finv, pars, gen = FACTORIES[fam]
+        par, sib = rng.sample(pars, 2)
+        n = max(nd, 1)
+        return {'what': 'root', 'family': fam, 'par': par, 'sibling': sib, 'seed': rng.getrandbits(28), 'means': gen(rng),
+                'kinds': [rng.choice(kinds[1:]) for _ in range(n)], 'rel': rng.choice([0.01, 0.03]), 'exact': rng.random() < 0.5,
+                'guess_factor': rng.choice([1.0, 1.1]), 'guess_shift': 0.0, 'as_list': rng.random() < 0.5}
+    if r0 < 0.5:
         fam = rng.choice(sorted(ROOTS))
         func, nd, inv, gen = ROOTS[fam]
         means = gen(rng)
@@ -189,8 +246,29 @@ def gen_case(ctx):
     if mode == 'eq' and lk == [None, None]:
         lk[rng.randrange(2)] = 'mc'
     kw = rng.choice([None, None, {'epsabs': 1e-12, 'epsrel': 1e-12}, {'limit': 80}, {'full_output': 1}])
-    return {'what': 'int', 'family': fam, 'seed': rng.getrandbits(28), 'means': means, 'pkinds': pk, 'limits': [a, b], 'lkinds': lk,
+    case = {'what': 'int', 'family': fam, 'seed': rng.getrandbits(28), 'means': means, 'pkinds': pk, 'limits': [a, b], 'lkinds': lk,
             'exact_limits': mode == 'eq' or rng.random() < 0.3, 'share_limit': rng.random() < 0.15 and mode != 'eq', 'kwargs': kw}
+    if rng.random() < 0.2:
+        al = rng.choice(['a_is_b', 'limit_is_param', 'param_twice'])
+        case['alias'] = al
+        case['share_limit'] = False
+        idx = rng.randrange(len(means))
+        case['alias_idx'] = idx
+        if al == 'a_is_b':
+            case['lkinds'][0] = case['lkinds'][0] or 'mc'
+            case['limits'][1] = case['limits'][0]
+            case['exact_limits'] = True
+        elif al == 'limit_is_param':
+            case['pkinds'][idx] = case['pkinds'][idx] or 'mc'
+            case['limits'][1] = means[idx]
+            case['lkinds'][1] = case['pkinds'][idx]
+        else:
+            case['pkinds'][idx] = case['pkinds'][idx] or 'mc'
+            if len(means) >= 2:
+                j = (idx + 1) % len(means)
+                case['means'][j] = means[idx]
+                case['pkinds'][j] = case['pkinds'][idx]
+    return case
 
 
 def run(ctx):
@@ -206,6 +284,8 @@ def run(ctx):
         ctx.count('%s=%s' % (case['what'], case['family']))
         if case['what'] == 'int':
             ctx.count('obs-params=%d obs-limits=%d' % (sum(1 for k in case['pkinds'] if k), sum(1 for k in case['lkinds'] if k)))
+            if case.get('alias'):
+                ctx.count('alias=' + case['alias'])
         ctx.case(case)
         for (kind, key, info) in check_case(ctx, case):
             (ctx.violation if kind == 'violation' else ctx.disagree)(key, {'case': case, 'info': info})
